@@ -53,6 +53,8 @@ def gen_dump(rng):
         return passcorr.unary_chain_circuit(rng, 'NOT')
     if r < 0.25:
         return passcorr.unary_chain_circuit(rng, 'IFF')
+    if r < 0.40:
+        return passcorr.near_duplicate_circuit(rng)
     return gen.random_circuit(rng, n_inputs=rng.choice([0, 1, 2, 3, 3, 4, 5]), with_blocks=False)
 
 
@@ -60,7 +62,7 @@ def correspondence(ctx, model_ok):
     gen.HOSTILE_P = 0.03     # unusual but legal labels: '', '@', 'a@b', mutual prefixes, case pairs
     r = CorrResult()
     r.rule = ('random circuits over all gate types (n-ary gates, L*/R* pseudo-unary gates, constants, outputs that are '
-              'inputs or repeated, dead logic); per circuit every pass alone (_transform) and 3 random pipelines '
+              'inputs or repeated, dead logic), chains of unary gates, families of near-duplicate gates (permuted / repeated / swapped operands, other type); per circuit every pass alone (_transform) and 3 random pipelines '
               '(nested compositions, pipe operator, implied post passes, repeated idempotent passes); the OUTPUT '
               'CIRCUIT is compared exactly (gate order, labels, operands, users, inputs, outputs) with the model, and '
               'the argument is checked to be unmodified; non-trivial = at least one non-INPUT gate')
